@@ -224,4 +224,50 @@ def monotone(ctx):
     kinds.check_who_may(ctx, "C15.M", "direct assignment to Task.clock", set(w), set())
 
 
-RULES = [("C15.E", edges), ("C15.M", monotone)]
+# The converse clause ("tasks connected by no chain of such edges are never reported as ordered"): a clock only absorbs another
+# clock at one of the enumerated synchronisation edges.  One reason per line; a merge anywhere else orders tasks that did not synchronise.
+MERGE_INTO_CURRENT = {   # callers of ExecutionState::update_clock (merge a clock into the running task's clock)
+    "shuttle_engine::future::batch_semaphore::BatchSemaphore::try_acquire": "failed try_acquire observes the last acquire",
+    "shuttle_engine::future::batch_semaphore::BatchSemaphoreState::acquire_permits": "acquire absorbs the clocks of the permit batches it takes",
+    "shuttle_std::sync::atomic::Atomic::exhale_clock": "atomic read / RMW absorbs the variable's clock",
+    "shuttle_std::sync::condvar::Condvar::wait": "woken wait absorbs the notifier's clock",
+    "shuttle_std::sync::mpsc::Channel::send_internal": "bounded send absorbs the clock of the receive that freed its slot",
+    "shuttle_std::sync::once::Once::call_once_inner": "later callers absorb the initializer's clock",
+    "shuttle_std::sync::once::Once::is_completed": "observing completion absorbs the initializer's clock",
+    "shuttle_std::thread::JoinHandle::join": "join absorbs the child's final clock",
+}
+MERGE_RAW = {            # direct callers of VectorClock::update (merge into a clock that is not necessarily the running task's)
+    "shuttle_engine::future::batch_semaphore::BatchSemaphoreState::unblock_waiters_from_front": "grant to a queued waiter: the waiter absorbs the batch clocks",
+    "shuttle_engine::future::batch_semaphore::PermitsAvailable::acquire": "collects the clocks of the batches being taken",
+    "shuttle_engine::runtime::execution::ExecutionState::update_clock": "the merge primitive itself",
+    "shuttle_std::sync::atomic::Atomic::inhale_clock": "atomic write publishes the writer's clock into the variable",
+    "shuttle_std::sync::barrier::Barrier::wait": "arrivals merge into the barrier clock, released tasks absorb it",
+    "shuttle_std::sync::mpsc::Channel::recv_internal": "receive absorbs the message's clock",
+}
+CLOCK_WRITERS = {        # functions that take Task.clock mutably
+    "shuttle_engine::future::batch_semaphore::BatchSemaphoreState::unblock_waiters_from_front": "queued grant",
+    "shuttle_engine::runtime::execution::ExecutionState::get_clock_mut": "accessor (its callers are checked below)",
+    "shuttle_engine::runtime::execution::ExecutionState::update_clock": "merge primitive",
+    "shuttle_engine::runtime::execution::ExecutionState::increment_clock": "own-step increment",
+    "shuttle_engine::runtime::execution::ExecutionState::increment_clock_mut": "own-step increment",
+    "shuttle_std::sync::barrier::Barrier::wait": "barrier release",
+}
+GET_MUT_CALLERS = {"shuttle_std::sync::mpsc::Channel::recv_internal": "receive merges the message clock into the receiver"}
+
+
+def precision(ctx):
+    prog = ctx.prog
+    roots = lambda tgt: {kinds.root_fn(prog, k) for k in kinds.callers(prog, tgt)}
+    kinds.check_who_may(ctx, "C15.P", "function merging a clock into the running task (update_clock)", roots(UPD), set(MERGE_INTO_CURRENT), required=set(MERGE_INTO_CURRENT))
+    kinds.check_who_may(ctx, "C15.P", "function calling VectorClock::update", roots(VC + "update"), set(MERGE_RAW), required={UPD})
+    w = kinds.writers_of_field(prog, "shuttle_engine::runtime::task::Task.clock", None, kinds=("assign", "refmut", "call_dst"))
+    ctors = {k for k in w if k.startswith("shuttle_engine::runtime::task::Task::")}      # constructors initialise the field
+    kinds.check_who_may(ctx, "C15.P", "function taking Task.clock mutably", set(w) - ctors, set(CLOCK_WRITERS))
+    kinds.check_who_may(ctx, "C15.P", "caller of get_clock_mut", roots(ES + "get_clock_mut"), set(GET_MUT_CALLERS))
+    # a task's clock is never replaced wholesale after construction (only grown through update / increment)
+    repl = {k: v for k, v in w.items() if any(kind in ("assign", "call_dst") for _, _, kind in v) and k not in ctors}
+    ctx.ob("C15.P", "clock-never-replaced", not repl, "Task.clock is never assigned as a whole outside Task's constructors (each task's own clock only grows)" if not repl else
+           "Task.clock is overwritten in %s: a task's clock could shrink" % sorted(repl), loc=None)
+
+
+RULES = [("C15.E", edges), ("C15.M", monotone), ("C15.P", precision)]
